@@ -158,6 +158,22 @@ impl crate::platform::Arch for ElfX86_64 {
 
         let offset = offset_in_section as usize;
 
+        // The offset comes from the input file. Everything below, as well as `RelaxationKind::apply`,
+        // indexes `section_bytes` relative to it, so don't attempt any relaxation if the bytes that
+        // the relocation applies to aren't within the section.
+        let field_size = if relocation_kind == object::elf::R_X86_64_TLSDESC_CALL {
+            2
+        } else {
+            4
+        };
+        if section_bytes
+            .len()
+            .checked_sub(field_size)
+            .is_none_or(|max_offset| offset > max_offset)
+        {
+            return None;
+        }
+
         match relocation_kind {
             object::elf::R_X86_64_REX_GOTPCRELX | object::elf::R_X86_64_CODE_4_GOTPCRELX
                 if (relocation_kind == object::elf::R_X86_64_CODE_4_GOTPCRELX
@@ -219,7 +235,7 @@ impl crate::platform::Arch for ElfX86_64 {
                     }
                 }
             }
-            object::elf::R_X86_64_GOTPCRELX => {
+            object::elf::R_X86_64_GOTPCRELX if offset >= 2 => {
                 match section_bytes.get(offset - 2)? {
                     // mov *x(%rip), reg
                     0x8b => {
@@ -364,12 +380,12 @@ impl crate::platform::Arch for ElfX86_64 {
                     mandatory: false,
                 });
             }
-            object::elf::R_X86_64_TLSLD if output_kind.is_executable() => {
+            object::elf::R_X86_64_TLSLD if output_kind.is_executable() && offset >= 3 => {
                 // lea    0x0(%rip),%rdi
                 if section_bytes.get(offset - 3..offset)? == [0x48, 0x8d, 0x3d] {
                     match section_bytes.get(offset + 4..offset + 6) {
                         // PC-relative direct call
-                        Some(&[0xe8, _]) => {
+                        Some(&[0xe8, _]) if section_bytes.len() >= offset + 9 => {
                             return Some(Relaxation {
                                 kind: RelaxationKind::TlsLdToLocalExec,
                                 rel_info: rel_info_from_type!(object::elf::R_X86_64_NONE),
@@ -378,7 +394,7 @@ impl crate::platform::Arch for ElfX86_64 {
                         }
                         // TODO: Make a test for this. Also, the description of TlsLdToLocalExec64
                         // possibly doesn't match what we're actually checking here.
-                        Some(&[0x48, 0xb8]) => {
+                        Some(&[0x48, 0xb8]) if section_bytes.len() >= offset + 19 => {
                             return Some(Relaxation {
                                 kind: RelaxationKind::TlsLdToLocalExec64,
                                 rel_info: rel_info_from_type!(object::elf::R_X86_64_NONE),
@@ -386,7 +402,7 @@ impl crate::platform::Arch for ElfX86_64 {
                             });
                         }
                         // PC-relative indirect call
-                        Some(&[0xff, 0x15]) => {
+                        Some(&[0xff, 0x15]) if section_bytes.len() >= offset + 10 => {
                             return Some(Relaxation {
                                 kind: RelaxationKind::TlsLdToLocalExecNoPlt,
                                 rel_info: rel_info_from_type!(object::elf::R_X86_64_NONE),
@@ -424,7 +440,7 @@ impl crate::platform::Arch for ElfX86_64 {
             }
             // Note, the conditions on this relaxation (is_executable) must match those on
             // TLSDESC_CALL below.
-            object::elf::R_X86_64_GOTPC32_TLSDESC if output_kind.is_executable() => {
+            object::elf::R_X86_64_GOTPC32_TLSDESC if output_kind.is_executable() && offset >= 3 => {
                 // We require that the instruction that this relocation applies to is a LEA
                 // instruction.
                 let bytes = section_bytes.get(offset - 3..offset - 1);
@@ -503,8 +519,10 @@ impl TlsGdForm {
     fn identify(bytes: &[u8], offset: usize) -> Option<Self> {
         // data16 lea 0x0(%rip),%rdi
         // data16 data16 rex.W call {relative function offset}
-        if bytes.get(offset - 4..offset) == Some(&[0x66, 0x48, 0x8d, 0x3d])
+        if offset >= 4
+            && bytes.get(offset - 4..offset) == Some(&[0x66, 0x48, 0x8d, 0x3d])
             && bytes.get(offset + 4..offset + 8) == Some(&[0x66, 0x66, 0x48, 0xe8])
+            && bytes.len() >= offset + 12
         {
             return Some(Self::Regular);
         }
@@ -513,7 +531,8 @@ impl TlsGdForm {
         // movabs $X,%rax
         // TODO: This branch is not currently exercised by our tests. Add a test and document the
         // third instruction.
-        if bytes.get(offset - 3..offset) == Some(&[0x48, 0x8d, 0x3d])
+        if offset >= 3
+            && bytes.get(offset - 3..offset) == Some(&[0x48, 0x8d, 0x3d])
             && bytes.get(offset + 4..offset + 6) == Some(&[0x48, 0xb8])
             && bytes.get(offset + 14..offset + 19) == Some(&[0x48, 0x01, 0xd8, 0xff, 0xd0])
         {
